@@ -517,12 +517,9 @@ impl Prioritize {
 
             // Streams pending capacity may have been reset before capacity
             // became available. In that case, the stream won't want any
-            // capacity: evict it and continue the loop. Being queued here may
-            // have been the only thing that kept a closed, unreferenced
-            // stream in the store, so it still has to go through
-            // `transition`, which releases it.
+            // capacity, and so we shouldn't "transition" on it, but just evict
+            // it and continue the loop.
             if !(stream.state.is_send_streaming() || stream.buffered_send_data > 0) {
-                counts.transition(stream, |_, _| {});
                 continue;
             }
 
